@@ -293,6 +293,13 @@ def borealis(chk):
         r = chk.tlc("MC_Borealis", constants=consts, invariants=["InModulatorRange", "PreservesStatistics", "PreparedNeverForced", "EmitInv"],
                     timeout=3000, use_override=False)
         emitted += r.json
+    # 1b. unbounded: the local gauge conditions of the compensation rule for ALL time bins, delays, loop phases and gate phases
+    #     (Apalache, symbolic integers; TwoMoreRounds is the negative control)
+    for inv, want in (("OneMoreRound", True), ("PortsAgree", True), ("TwoMoreRounds", False)):
+        holds, _ = common.run_apalache("BorealisGauge", inv, tmp=chk.tmp)
+        chk.tlc_cmds.append("apalache-mc check --inv=%s --length=0 BorealisGauge.tla -> %s" % (inv, "holds" if holds else "violated"))
+        if holds != want:
+            raise common.MachineryError("BorealisGauge.%s: Apalache says %s, expected %s" % (inv, holds, want))
     # 2. the same instances through the real compiler
     items = _instances_from_model(emitted)
     if tier == "quick":
